@@ -12,21 +12,74 @@ NOTE = ("Trusted base: Coq 8.16.1 kernel (vm_compute inside proofs, no native_co
         "modelled, not verified. Theorems are about the Gallina model (coq/theories/Model), which is tied to /repo's current source by "
         "running the extracted model and the real crate on the same generated cases on every run.")
 
+TECH = "Coq proof over a Gallina model of the code; model validated against the real crate by differential execution (extracted model vs harness) and an independent property oracle"
+
 CLAIMS = {
-    # id: (text, technique, design_ref, extra note)
-    "C11": ("The error-code table is proved for every integer against the enum regenerated from src/error.rs; each API's consultation "
-            "point is proved to turn a non-zero code into the matching error with no data, at any position among healthy partitions; "
-            "the model is run against the real crate for every code x API x position.",
-            "Coq proof (table + per-API lemmas) over a model validated by differential execution",
-            "DESIGN.md section 5 / C11", ""),
-    "C12": ("explicit / keyed (= XXH32(key,0) mod N, a pure function of key and count) / keyless (an available partition; a window of "
-            "|available| consecutive keyless records of one topic visits each once) / unknown (unassigned, rejected) are theorems about the "
-            "partitioner model for all inputs; the per-topic rotation the wording asks for is refuted by a proved witness (shared counter, "
-            "known finding F19) and at the 2^32 wrap; the model is run against real Producers, partitions read off the wire and compared "
-            "with an independent XXH32.",
-            "Coq proof over a model validated by differential execution; refutation witnesses for the part that does not hold",
-            "DESIGN.md section 5 / C12", "C12_rotation holds for uninterrupted single-topic windows below the counter wrap (hypotheses in the statement)."),
+    "C01": ("Poll bookkeeping is proved for every decoded reply: what is handed out (C01_iterate_complete/_order), where the next fetch starts "
+            "(C01_offsets_advance: last delivered + 1, others unmoved), that a failed poll changes nothing (C01_failed_poll_keeps_offsets, "
+            "C01_fetch_failure), emptiness flag = iteration (C01_empty_flag). The end-to-end statement 'delivered = log segment' over histories "
+            "composes these with C02 and the broker; it is checked on the implementation by the oracle over generated histories.",
+            TECH, "C01", "Hypothesis `sane` (reply lists only assigned topics / fetched partitions, no duplicates, offsets within i64). Known finding C01-late-reply (F17)."),
+    "C02": ("C02_plain_prefix (uncompressed set, every cut: all complete messages >= offset), C02_wrapper_first/_cut, C02_chain (any nesting), "
+            "C02_outside_known (gap-free prefix when no wrapper sits at an index > 0), C02_safe_always/_in_order_and_bounds for every well-formed set "
+            "(never an error, never partial, in-order byte-identical sublist); C02_full_refuted / C02_nonempty_refuted document known finding F13.",
+            TECH, "C02", "codec_ok: the decompressors invert the broker's compressor (snappy: for inputs below 1 GiB). Known finding C02-wrapper-not-first (F13)."),
+    "C03": ("C03_plain / C03_wrapped / C03_none_in_request: the independent strict parser (exact sizes, magic 0, CRC recomputed) returns exactly the "
+            "records, null stays null; one wrapper with null key, attribute = codec, value = compressor output of exactly the plain set; C03_reject, C03_no_panic.",
+            TECH, "C03", "Hypothesis `fits` (key, value and rendered message below 2^31 bytes) is necessary: C03_size_cast_wraps."),
+    "C04": ("From a complete theory of the CRC register (affine syndrome, T linear and invertible, order exactly 2^32-1): every burst <= 32 bits inside the "
+            "covered bytes, every corruption of the field alone, every single- and double-bit flip is rejected, for any message length (double: < 2^32-32 bits), "
+            "also inside sets and inside wrappers with intact outer CRC; validation off ignores the field. The straddling burst is refuted with a proved, delivered witness (F18).",
+            TECH, "C04", "Known finding C04-straddling-burst (F18, wire format)."),
+    "C05": ("C05_exactly_once, C05_single_set, C05_leader_only, C05_all_records_once, C05_noack_no_read, C05_confirms, C05_producer_same over all batches, layouts and host orders.",
+            TECH, "C05", ""),
+    "C06": ("Refinement of the index-based client state to an abstract view: C06_refines (= merge of the responses), C06_history over any load/reset history, "
+            "C06_routing, addressing theorems, bootstrap theorems; invariants for every response.",
+            TECH, "C06", "wf_md (partition ids a permutation of 0..n-1) for C06_refines; C06_refines_code for all responses; fewer than 2^32-1 brokers."),
+    "C07": ("C07_start_valid/_invalid/_none and their lift to every assigned partition (C07_range_states*, C07_fallback_states).",
+            TECH, "C07", "Known finding C07-leaderless-start (F22): C07_fallback_unreported_is_minus1."),
+    "C08": ("C08_monotone, C08_dirty_set, C08_commit_content, C08_commit_clears_only_on_success, C08_dirty_persists, C08_load_roundtrip, C08_version.",
+            TECH, "C08", "Relies on C07 (start offset), C19 (assignment), C14 (commit terminates)."),
+    "C09": ("Per API: the independent request grammar parses the frame to exactly the arguments with nothing left over (_frame), encoders fail only with "
+            "CodecError and only for over-long strings/arrays (_reject, _ok_iff); correlation ids strictly increase until the 2^30 wrap (C09_corr_sequence).",
+            TECH, "C09", "Integers within wire width, unchecked `as i32` counts and the payload below 2^31 (C09_frame_oversize). Known finding C09-correlation-wrap (F20)."),
+    "C10": ("Per response type: decoder o printer = view with the rest untouched, null = empty (_decode); merges accumulate everything (C10_merge_all, "
+            "_merge_brokers, _offsets_exchange_all); fetch pass-through.",
+            TECH, "C10", "C10_group_scan_all needs distinct topic names within one reply (C10_group_scan_all_refuted)."),
+    "C11": ("The error-code table is proved for every integer against the enum regenerated from src/error.rs; each API's consultation point turns a non-zero "
+            "code into the matching error with no data, at any position among healthy partitions.",
+            TECH, "C11", ""),
+    "C12": ("explicit / keyed (= XXH32(key,0) mod N, pure in key and count) / keyless (an available partition; a window of |available| consecutive keyless "
+            "records of one topic visits each once) / unknown (unassigned, rejected); the per-topic rotation of the wording is refuted (shared counter, F19) and at the 2^32 wrap.",
+            TECH, "C12", "C12_rotation: uninterrupted single-topic window below the counter wrap. Known finding C12-shared-counter (F19)."),
+    "C13": ("All seven flat response decoders, the frame-size handling and update_metadata are total on every input; message-set / fetch decoding ends in "
+            "Ok, Err or one of two characterised escapes; the consumer / producer layers panic only inside named known classes (_outside_known).",
+            TECH, "C13", "Partial: stack exhaustion, allocator aborts and third-party crates are observed by the harness, not modelled. Known findings C13-expect-response-shape (F16), C13-snappy-declared-length, C13-offset-overflow-debug."),
+    "C14": ("Attempt bounds (max(1,n), exact without interrupted writes), result characterisation, re-lookup after code 16 and termination of the three "
+            "retry loops over all answer streams and all limits.",
+            TECH, "C14", "Known findings C14-code15-not-retried, C14-lookup-14-16-not-retried (F21)."),
+    "C15": ("C15_write_all_complete, C15_read_exact_complete/_eof, C15_exchange_complete (success only after the whole request was accepted and exactly "
+            "4+size reply bytes were read), C15_total, C15_negative_size for every stream behaviour.",
+            TECH, "C15", "Partial: real sockets/TLS are replaced by the scripted stream. Known finding C15-late-reply (F17): C15_attribution_refuted."),
+    "C16": ("C16_*_last_wins, _independent, _applied, _create_uses for both builders in any call order incl. with_partitioner; C16_duration* (rejected, never wrapped).",
+            TECH, "C16", ""),
+    "C17": ("C17_double, _never_above_limit, _too_large, _requeue, _reset, _sequence, _sequence_bound (explicit bound log2_up(L/f)+2), _retry_alone, _disabled.",
+            TECH, "C17", "0 < fetch size (C17_nonpositive_stalls shows it is necessary)."),
+    "C18": ("Value/ownership part: the buffer the exposed views point into is kept alive by the result for sets of nesting depth <= 1 (C18_views_owned*, "
+            "C18_level_le_depth), views are in-bounds sub-slices (C18_views_layout, C18_zread_exact); the check re-reads live results after moves, further calls "
+            "and allocator churn. C18_nested_dangling_refuted documents the dangling views of nested batches (F13).",
+            "Coq proof over an ownership model of the decoder + re-reading of live results in the harness", "C18",
+            "Partial: address-level memory safety (moved Vec keeps its heap block, Drop frees once) is Rust semantics outside the model. Known finding C18-nested-dangling (F13)."),
+    "C19": ("C19_from_map_sorted, C19_lookup (binary search = linear search on the sorted table, for every set of names), C19_determine, C19_builder_override, "
+            "C19_foreign_seek/_consume, C19_*_assigned (only that key changes), C19_subscriptions.",
+            TECH, "C19", ""),
+    "C20": ("C20_*_known (every request entry is in the loaded metadata), C20_*_local_fail / _call_local_fail (error with an unchanged I/O trace), "
+            "C20_fetch_silent, C20_topic_offsets_unknown, C20_after_reset*.",
+            TECH, "C20", ""),
 }
+
+ENABLED = set(l.strip() for l in open(os.path.join(ROOT, "tools", "enabled.txt")) if l.strip()) \
+    if os.path.exists(os.path.join(ROOT, "tools", "enabled.txt")) else set(CLAIMS)
 
 NOT_YET = {}
 
@@ -41,8 +94,9 @@ def main():
     checks, na = [], []
     for p in props:
         pid = p["id"]
-        if pid in CLAIMS:
+        if pid in CLAIMS and pid in ENABLED:
             text, tech, ref, extra = CLAIMS[pid]
+            ref = "DESIGN.md section 5 / " + ref
             checks.append({
                 "property_id": pid,
                 "quick_cmd": "./check %s --tier quick" % pid,
@@ -67,7 +121,7 @@ def main():
             "add_only": True,
         },
         "engines": [{"name": "coq-model+differential-harness", "path": "/verif/check",
-                     "serves_properties": sorted(CLAIMS), "kind_free_text":
+                     "serves_properties": sorted(p for p in CLAIMS if p in ENABLED), "kind_free_text":
                      "Coq 8.16 theorems about a Gallina model of the client; the extracted model and the real crate run on the same generated cases"}],
         "checks": checks,
         "not_applicable": na,
